@@ -39,6 +39,8 @@ type c05WrapCase struct {
 	acts    []string
 	realPre bool // prefixedConn built by prefetchForTcpSniff (else white-box)
 	skipped int
+	lwt     bool // the inner conn returns its last segment together with EOF / the error
+	noDl    bool // the inner conn has no deadline support: the sniffer takes readStreamOnceAsync
 }
 
 func (c *c05WrapCase) op() string {
@@ -63,6 +65,9 @@ func (c *c05WrapCase) op() string {
 	if c.eof {
 		term = "eof"
 	}
+	if c.lwt {
+		term += "+"
+	}
 	return fmt.Sprintf("wrap %s %s %s %s", st, term, cs, strings.Join(c.acts, ","))
 }
 
@@ -84,6 +89,8 @@ func c05RunWrap(c *c05WrapCase) string {
 	peer, side := c05Pair(w, "peer", "src")
 	side.local = &net.TCPAddr{IP: net.IPv4(127, 0, 0, 1), Port: 1}
 	side.remote = &net.TCPAddr{IP: net.IPv4(127, 0, 0, 1), Port: 2}
+	side.rd.lastWithTerm = c.lwt
+	side.noDeadline = c.noDl
 	var fed []byte
 	// ---- feed: everything is queued up front, so no read ever blocks
 	queue := func(b []byte) {
@@ -134,7 +141,7 @@ func c05RunWrap(c *c05WrapCase) string {
 	switch c.stack {
 	case "pre":
 		if c.realPre {
-			probe, pre, ready, err := prefetchForTcpSniff(side, 500*time.Millisecond, tcpSniffPrefetchBytes)
+			probe, pre, ready, err := prefetchForTcpSniff(side, 60*time.Second, tcpSniffPrefetchBytes)
 			if err != nil || !ready || !bytes.Equal(pre, c.held) {
 				return fmt.Sprintf("harness:prefetch ready=%v err=%v got=%d want=%d", ready, err, len(pre), len(c.held))
 			}
@@ -153,11 +160,13 @@ func c05RunWrap(c *c05WrapCase) string {
 		}
 		src = &bufioConn{Conn: side, reader: br}
 	case "snf":
-		probe, _, ready, err := prefetchForTcpSniff(side, 500*time.Millisecond, tcpSniffPrefetchBytes)
+		probe, _, ready, err := prefetchForTcpSniff(side, 60*time.Second, tcpSniffPrefetchBytes)
 		if err != nil || !ready {
 			return "harness:prefetch"
 		}
-		sn := sniffing.NewConnSniffer(probe, 500*time.Millisecond)
+		// generous wall-clock window: everything is queued, no read waits; a loaded machine must not turn
+		// this into the sniffer's timeout path
+		sn := sniffing.NewConnSniffer(probe, 60*time.Second)
 		defer func() { _ = sn.Close() }()
 		_, serr := sn.SniffTcp()
 		if c.poison == (serr == nil) {
@@ -283,6 +292,16 @@ func c05GenWrapCase(r *VRand, stats *VStats) *c05WrapCase {
 		} else {
 			c.held = c05ClientHello(r, "tls.example.com", 300)
 		}
+	}
+	// (not for bufioConn: a zero-length Read of a bufio.Reader reports — once — an error it has stored with
+	// the last fill; the model has no such latch, and the client conn under a bufioConn is always TCP)
+	if len(c.chunks) > 0 && c.stack != "buf" && r.Chance(0.4) {
+		c.lwt = true
+		stats.Inc("wrap.last-segment-with-end")
+	}
+	if c.stack == "snf" && r.Chance(0.3) {
+		c.noDl = true
+		stats.Inc("wrap.sniffer-async-path")
 	}
 	L := len(c.held)
 	sizes := []int{0, 1, 2, L - 1, L, L + 1, 512, 32768}
